@@ -148,6 +148,18 @@ def handleC02 (op : String) (args : Array Json) : Option Json := do
       ("sound", Json.bool (whereSound (st.exprs.getD []))),
       ("mixedNot", Json.bool (anyMixedNot (st.exprs.getD []))),
       ("nexprs", natJ (st.exprs.getD []).length)])
+  | "guard" =>
+    -- ["guard", chain, softFilter|null, unscoped, pk|null, allowGlobal] -> missing?
+    let ch ← parseChain (arg args 1)
+    let soft ← match arg args 2 with
+      | Json.null => some none
+      | v => (parseAtom v).map some
+    let un ← jBool? (arg args 3)
+    let pk ← match arg args 4 with
+      | Json.null => some none
+      | v => (parseAtom v).map some
+    let ag ← jBool? (arg args 5)
+    some (Json.bool (missingWhere ag (guardState ch pk soft un)))
   | _ => none
 
 end Gorm.Drv
